@@ -56,20 +56,21 @@ func plan(tier string) []family {
 	if tier != "thorough" {
 		return []family{
 			{"valid histories and single perturbations, N<=4 commits, all content patterns", "G", 96, perturbFamily(1, 4, all, all)},
-			{"full cross product of clock options, N<=4 commits, content patterns 0 and 1", "G", 96, fullFamily(4, []int{0, 1})},
-			{"full cross product of clock options, N<=4 commits, content patterns 2 and 3 (mockRepo)", "M", 512, fullFamily(4, []int{2, 3})},
-			{"valid histories and single perturbations, N=5 commits, content patterns 0 and 1", "G", 96, perturbFamily(5, 5, []int{0, 1}, []int{0, 1})},
+			{"full cross product of clock options, N<=4 commits, all content patterns (mockRepo)", "M", 512, fullFamily(4, all)},
+			{"valid histories (content patterns 0, 1) and single perturbations (pattern 1), N=5 commits", "G", 96, perturbFamily(5, 5, []int{0, 1}, []int{1})},
+			{"valid histories and single perturbations, N=5 commits, all content patterns (mockRepo)", "M", 512, perturbFamily(5, 5, all, all)},
 		}
 	}
 	return []family{
 		{"valid histories and single perturbations, N<=5 commits, all content patterns", "G", 96, perturbFamily(1, 5, all, all)},
-		{"full cross product of clock options, N<=4 commits, all content patterns", "G", 96, fullFamily(4, all)},
+		{"full cross product of clock options, N<=4 commits, content patterns 0 and 1", "G", 96, fullFamily(4, []int{0, 1})},
+		{"full cross product of clock options, N<=4 commits, content patterns 2 and 3 (mockRepo)", "M", 512, fullFamily(4, []int{2, 3})},
 		{"full cross product of clock options, N=5 commits, content patterns 0 and 1 (mockRepo)", "M", 512, func(emit func(Spec)) {
 			for _, sh := range Shapes(5) {
 				Full(sh, []int{0, 1}, emit)
 			}
 		}},
-		{"valid histories and single perturbations, N=6 commits, content patterns 0 and 1", "G", 96, perturbFamily(6, 6, []int{0, 1}, []int{1})},
+		{"valid histories (content patterns 0, 1) and single perturbations (pattern 1), N=6 commits (mockRepo)", "M", 512, perturbFamily(6, 6, []int{0, 1}, []int{1})},
 	}
 }
 
@@ -118,30 +119,6 @@ func Run(tier string, seed uint64, rep *evidence.Reporter, deadline time.Time) (
 			famInfo = append(famInfo, map[string]any{"family": fam.Name, "skipped": "internal deadline"})
 			continue
 		}
-		var lines []string
-		var cur []string
-		n := 0
-		flush := func() {
-			if len(cur) > 0 {
-				lines = append(lines, fam.Mode+" "+strings.Join(cur, " "))
-				cur = nil
-			}
-		}
-		fam.Gen(func(s Spec) {
-			s[0].K = len(cur) // distinct root (hence distinct bug id) for every history of a batch
-			cur = append(cur, s.String())
-			n++
-			if len(cur) == fam.Batch {
-				flush()
-			}
-		})
-		flush()
-		fmt.Fprintf(os.Stderr, "== C03B: %s: %d histories in %d batches\n", fam.Name, n, len(lines))
-		results, err := subproc.Run(args, lines, 0)
-		if err != nil {
-			fmt.Fprintln(os.Stderr, "harness error:", err)
-			return nil, true
-		}
 		famCounts := map[string]int{}
 		handle := func(r subproc.Result, line string) bool {
 			var out BatchOut
@@ -165,46 +142,107 @@ func Run(tier string, seed uint64, rep *evidence.Reporter, deadline time.Time) (
 			}
 			return true
 		}
-		for i, r := range results {
-			if !r.Crashed {
-				if !handle(r, lines[i]) {
-					harnessErr = true
-				}
-				continue
-			}
-			// the worker died somewhere in this batch: run its histories one per process
-			f := strings.Fields(lines[i])
-			var singles []string
-			for _, s := range f[1:] {
-				singles = append(singles, f[0]+" "+s)
-			}
-			rs, err := subproc.Run(args, singles, 0)
+		// runChunk executes the batches gathered so far; false = harness failure
+		runChunk := func(lines []string) bool {
+			results, err := subproc.Run(args, lines, 0)
 			if err != nil {
 				fmt.Fprintln(os.Stderr, "harness error:", err)
-				return nil, true
+				return false
 			}
-			for j, r1 := range rs {
-				if !r1.Crashed {
-					if !handle(r1, singles[j]) {
+			for i, r := range results {
+				if !r.Crashed {
+					if !handle(r, lines[i]) {
 						harnessErr = true
 					}
 					continue
 				}
-				counts["crashed"]++
-				class := classifyOnly(args, f[1+j])
-				sig := "crash-on-" + strings.SplitN(class, ":", 2)[0]
-				oracle := "c03.order"
-				if strings.HasPrefix(class, "invalid:") {
-					sig, oracle = "crash-on-invalid:"+strings.TrimPrefix(class, "invalid:"), "c03.refused"
+				// the worker died somewhere in this batch: run its histories one per process
+				f := strings.Fields(lines[i])
+				var singles []string
+				for _, s := range f[1:] {
+					singles = append(singles, f[0]+" "+s)
 				}
-				note(Viol{Spec: f[1+j], Mode: f[0], Oracle: oracle, Sig: sig,
-					Detail: fmt.Sprintf("history %s [%s]: the process died while git-bug read or merged it: %s", f[1+j], class, tail(r1.Stderr, 600))})
+				rs, err := subproc.Run(args, singles, 0)
+				if err != nil {
+					fmt.Fprintln(os.Stderr, "harness error:", err)
+					return false
+				}
+				for j, r1 := range rs {
+					if !r1.Crashed {
+						if !handle(r1, singles[j]) {
+							harnessErr = true
+						}
+						continue
+					}
+					counts["crashed"]++
+					class := classifyOnly(args, f[1+j])
+					sig := "crash-on-" + strings.SplitN(class, ":", 2)[0]
+					oracle := "c03.order"
+					if strings.HasPrefix(class, "invalid:") {
+						sig, oracle = "crash-on-invalid:"+strings.TrimPrefix(class, "invalid:"), "c03.refused"
+					}
+					note(Viol{Spec: f[1+j], Mode: f[0], Oracle: oracle, Sig: sig,
+						Detail: fmt.Sprintf("history %s [%s]: the process died while git-bug read or merged it: %s", f[1+j], class, tail(r1.Stderr, 600))})
+				}
+			}
+			return true
+		}
+		var lines []string
+		var cur []string
+		n, done, batches, skipped := 0, 0, 0, 0
+		stopped, failed := false, false
+		flush := func() {
+			if len(cur) > 0 {
+				lines = append(lines, fam.Mode+" "+strings.Join(cur, " "))
+				cur = nil
 			}
 		}
-		total += n
-		famInfo = append(famInfo, map[string]any{"family": fam.Name, "backend": map[string]string{"G": "GoGitRepo (2 replicas) + mockRepo", "M": "mockRepo"}[fam.Mode],
-			"histories": n, "batches": len(lines), "wall_s": time.Since(t0).Seconds(),
-			"valid": famCounts["class valid"], "ordered": famCounts["ordered"]})
+		const chunk = 1024 // batches per round of workers; the deadline is looked at between rounds
+		fam.Gen(func(s Spec) {
+			if stopped || failed {
+				skipped++
+				return
+			}
+			s[0].K = len(cur) // distinct root (hence distinct bug id) for every history of a batch
+			cur = append(cur, s.String())
+			n++
+			if len(cur) == fam.Batch {
+				flush()
+				if len(lines) >= chunk {
+					if !runChunk(lines) {
+						failed = true
+					}
+					batches += len(lines)
+					lines, done = nil, n
+					if time.Now().After(deadline) {
+						stopped = true
+					}
+				}
+			}
+		})
+		flush()
+		if failed {
+			return nil, true
+		}
+		if len(lines) > 0 {
+			if !runChunk(lines) {
+				return nil, true
+			}
+			batches += len(lines)
+			done = n
+		}
+		if stopped && skipped > 0 {
+			exhaustive = false
+		}
+		fmt.Fprintf(os.Stderr, "== C03B: %s: %d histories in %d batches, %.1fs (not run: %d)\n", fam.Name, done, batches, time.Since(t0).Seconds(), skipped)
+		total += done
+		info := map[string]any{"family": fam.Name, "backend": map[string]string{"G": "GoGitRepo (2 replicas) + mockRepo", "M": "mockRepo"}[fam.Mode],
+			"histories": done, "batches": batches, "wall_s": time.Since(t0).Seconds(),
+			"valid": famCounts["class valid"], "ordered": famCounts["ordered"]}
+		if skipped > 0 {
+			info["not_run_internal_deadline"] = skipped
+		}
+		famInfo = append(famInfo, info)
 	}
 
 	for _, k := range sigOrder {
